@@ -48,16 +48,41 @@ def snap(o):
     if isinstance(o, ConstrainedQuadraticModel):
         return ('cqm', snap(o.objective), tuple((repr(l), c.sense.value, float(c.rhs), snap(c.lhs), (c.lhs.is_soft(), c.lhs.weight(), c.lhs.penalty()) if c.lhs.is_soft() else None, bool(c.lhs.is_discrete())) for l, c in o.constraints.items()),
                 tuple(sorted(map(repr, o.discrete))),
-                tuple((repr(v), o.vartype(v).name, float(o.lower_bound(v)), float(o.upper_bound(v))) for v in o.variables))
+                tuple((repr(v), o.vartype(v).name, float(o.lower_bound(v)), float(o.upper_bound(v))) for v in o.variables),
+                # r8f: the rest of the observable state: label orders, the markers as the C++ constraints report them, counts
+                tuple(map(repr, o.constraint_labels)), tuple(map(repr, o.constraints)),
+                tuple((repr(l), bool(c.lhs.is_discrete()), bool(c.lhs.is_soft()), tuple(map(repr, c.lhs.variables))) for l, c in o.constraints.items()),
+                (o.num_biases(), o.num_quadratic_variables(), len(o.variables), len(o.constraints)))
     if isinstance(o, dimod.variables.Variables):
         return ('vars', tuple(map(repr, o)))
     vt = o.vartype.name if not callable(o.vartype) else tuple(o.vartype(v).name for v in o.variables)
+    bounds = tuple((float(o.lower_bound(v)), float(o.upper_bound(v))) for v in o.variables) if hasattr(o, 'lower_bound') else None
     return ('model', vt, tuple((repr(v), float(b)) for v, b in o.iter_linear()),
-            tuple(sorted((tuple(sorted((repr(u), repr(v)))), float(b)) for u, v, b in o.iter_quadratic())), float(o.offset))
+            tuple(sorted((tuple(sorted((repr(u), repr(v)))), float(b)) for u, v, b in o.iter_quadratic())), float(o.offset),
+            bounds, tuple(map(repr, o.variables)), (o.num_variables, o.num_interactions))
+def obs(x, depth=0):
+    """a comparable form of whatever a read returns"""
+    if isinstance(x, (SampleSet, ConstrainedQuadraticModel, dimod.variables.Variables)) or hasattr(x, 'iter_linear'):
+        return snap(x)
+    if isinstance(x, np.ndarray):
+        return ('array', x.dtype.str, x.shape, x.tobytes())
+    if isinstance(x, str):
+        import re
+        return re.sub(r'0x[0-9a-f]+', '0x', x)
+    if isinstance(x, (bytes, int, float, bool, complex, type(None), np.generic)):
+        return x
+    if depth > 6 or ' at 0x' in repr(x)[:300]:
+        return type(x).__name__
+    if isinstance(x, dict) or hasattr(x, 'items'):
+        return ('map', tuple((repr(k), obs(v, depth + 1)) for k, v in x.items()))
+    if hasattr(x, '__iter__'):
+        return ('seq', tuple(obs(v, depth + 1) for v in x))
+    return repr(x)
 '''
 _env = {}
 exec(PRE, _env)
 snap = _env['snap']
+obs = _env['obs']
 
 LABELS = [['a', 'b', 'c', 'd'], [0, 1, 2, 3], [('x', 0), ('x', 1), ('y', (0, 1)), 'z'], [3, 'a', 0, ('t', 1)]]
 
@@ -99,11 +124,20 @@ def gen_cqm(r, name='m'):
         soft = r.random() < .5
         extra = f", weight={r.choice([0.5, 2.0, 3.25])!r}, penalty={r.choice(['linear', 'quadratic'] if allbin else ['linear'])!r}" if soft else ''
         src += f"{name}.add_constraint(q{k + 1}, {r.choice(['<=', '>=', '=='])!r}, {r.randint(-2, 2)}, label='c{k}'{extra})\n"
+    dom = {v: {'BINARY': [0, 1], 'SPIN': [-1, 1], 'INTEGER': [-2, 0, 3, 5], 'REAL': [-2.0, 0.0, 1.5]}[t] for v, t in zip(vs, vts)}
     if r.random() < .6:
         # a discrete (one-hot) constraint over fresh binary variables, and a soft linear one over them
         src += f"{name}.add_discrete(['dA', 'dB', 'dC'], label='disc')\n"
         src += f"{name}.add_constraint_from_iterable([('dA', 1.0), ('dB', 2.0)], '<=', 1, label='softd', weight=1.5, penalty={r.choice(['linear', 'quadratic'])!r})\n"
-    return src.rstrip(), vs, None
+        dom.update(dA=[0, 1], dB=[0, 1], dC=[0, 1])
+        if r.random() < .5:
+            # r8f: a second discrete constraint, built the other ways (one-hot add_constraint that gets marked; from an iterable of terms)
+            if r.random() < .5:
+                src += f"{name}.add_discrete(dimod.quicksum(dimod.Binary(v) for v in ['eA', 'eB']) == 1, label='disc2')\n"
+            else:
+                src += f"{name}.add_discrete_from_iterable(['eA', 'eB'], label='disc2')\n"
+            dom.update(eA=[0, 1], eB=[0, 1])
+    return src.rstrip(), vs, dom
 
 
 def gen_ss(r, name='ss', m=None):
@@ -169,12 +203,30 @@ def model_calls(kind, vs, vt, r):
             ('QuadraticModel.update into new', 'res = dimod.QuadraticModel(); res.update(m)', 'construct', True),
             ('ConstrainedQuadraticModel.from_quadratic_model', 'res = dimod.ConstrainedQuadraticModel.from_quadratic_model(m)', 'construct', False),
         ]
+    extra_expected = {}
     if kind == 'cqm':
         calls += [
             ('spin_to_binary(inplace=False)', 'res = m.spin_to_binary(inplace=False)', 'inplacefalse', False),
             ('fix_variables(inplace=False)', f'res = m.fix_variables({{{v0!r}: 1}}, inplace=False)', 'inplacefalse', False),
             ('fix_variables(discrete member, inplace=False)', "res = m.fix_variables({'dA': 0}, inplace=False)", 'inplacefalse', False),
         ]
+        # r8f: any assignment of any subset of the variables (members of discrete / soft constraints to zero and to non-zero values,
+        # objective variables of every vartype), given as a dict, a list of pairs or a one-shot iterator
+        dom = vt or {}
+        for j in range(2):
+            ks = r.sample(sorted(dom, key=repr), r.randint(1, min(3, len(dom))))
+            if 'dA' in dom and r.random() < .7:
+                ks = list(dict.fromkeys(ks + [r.choice([k for k in dom if isinstance(k, str) and k[0] in 'de' and len(k) == 2])]))
+            fixed = {k: (1 if (isinstance(k, str) and k[0] in 'de' and len(k) == 2 and r.random() < .7) else r.choice(dom[k])) for k in ks}
+            form = r.choice(['dict', 'dict', 'pairs', 'iterator'])
+            arg = {'dict': repr(fixed), 'pairs': repr(list(fixed.items())), 'iterator': f'iter({list(fixed.items())!r})'}[form]
+            member = any(isinstance(k, str) and k[0] in 'de' and len(k) == 2 for k in fixed)
+            nonzero = any(isinstance(k, str) and k[0] in 'de' and len(k) == 2 and x for k, x in fixed.items())
+            nm = f"fix_variables(random assignment{', discrete member' if member else ''}{' non-zero' if nonzero else ''}, {form}, inplace=False)"
+            if nm in [c[0] for c in calls]:
+                continue
+            calls.append((nm, f'res = m.fix_variables({arg}, inplace=False)', 'inplacefalse', False))
+            extra_expected[nm] = f'exp = copy.deepcopy(m); exp.fix_variables({fixed!r}, inplace=True)'
     expected = {
         'relabel_variables(inplace=False)': f'exp = copy.deepcopy(m); exp.relabel_variables({relabel!r}, inplace=True)',
         'relabel_variables_as_integers(inplace=False)': 'exp = copy.deepcopy(m); exp.relabel_variables_as_integers(inplace=True)',
@@ -184,6 +236,7 @@ def model_calls(kind, vs, vt, r):
         'fix_variables(inplace=False)': f'exp = copy.deepcopy(m); exp.fix_variables({{{v0!r}: 1}}, inplace=True)',
         'fix_variables(discrete member, inplace=False)': "exp = copy.deepcopy(m); exp.fix_variables({'dA': 0}, inplace=True)",
     }
+    expected.update(extra_expected)
     return [c + (expected.get(c[0]),) for c in calls]
 
 
@@ -258,8 +311,8 @@ def model_edits(kind, r, vs, target, k):
             out.append(f'{target}.fix_variable({v!r}, 1)')
         elif e == 'change_vartype' and kind == 'bqm':
             out.append(f"{target}.change_vartype('SPIN' if {target}.vartype is dimod.BINARY else 'BINARY', inplace=True)")
-        elif e == 'bounds' and kind == 'cqm':
-            out.append(f'{target}.set_upper_bound({v!r}, 3)')
+        elif e == 'bounds' and kind in ('cqm', 'qm'):
+            out.append(f'{target}.set_upper_bound({v!r}, 3)' if r.random() < .6 else f'{target}.set_lower_bound({v!r}, -1)')
         elif e == 'constraint_lhs' and kind == 'cqm':
             out.append(f"{target}.constraints['c0'].lhs.add_linear({v!r}, 2.0)")
             out.append(f"{target}.constraints['c0'].lhs.offset += 1.0")
@@ -306,10 +359,10 @@ def check_call(ctx, r, kind_name, site, src, code, recv, plain_copy, edits_fn, n
     def canon(t):
         # models are equal up to variable order (pickle / the serializable form sort the labels); vartype object differences
         # between BQM classes are immaterial
-        return (t[0], sorted(t[2]), t[3], t[4]) if t[0] == 'model' else t
+        return (t[0], sorted(t[2]), t[3], t[4], sorted(zip(t[6], t[5])) if t[5] else None, t[7]) if t[0] == 'model' else t
     if plain_copy and canon(env['sres']) != canon(env['before']):
         ctx.fail('property', site, 'result differs from the receiver' + suffix, f'{env["sres"]!r} != {env["before"]!r}',
-                 repro=PRE + src + '\n' + code + f'\nS = lambda t: (sorted(t[2]), t[3:]) if t[0] == "model" else t\nassert S(snap(res)) == S(snap({recv})), (snap(res), snap({recv}))', detail=dict(source=src, call=code))
+                 repro=PRE + src + '\n' + code + f'\nS = lambda t: (sorted(t[2]), t[3], t[4], sorted(zip(t[6], t[5])) if t[5] else None, t[7]) if t[0] == "model" else t\nassert S(snap(res)) == S(snap({recv})), (snap(res), snap({recv}))', detail=dict(source=src, call=code))
         return env
     if expected is not None:
         # `inplace=False` must be "deep copy, then the in-place call" — every field, incl. soft weights / penalties / discrete marks
@@ -350,6 +403,108 @@ def check_call(ctx, r, kind_name, site, src, code, recv, plain_copy, edits_fn, n
                          detail=dict(source=src, call=code, edits=done))
                 return env
     return env
+
+
+# ------------------------------------------------------------------ r8f: reads are invisible (per-object caches, markers, counters)
+
+def read_calls(kind, r, vs, dom=None):
+    """non-mutating calls on `m` (each an expression); a call that does not apply to this object raises and is skipped"""
+    v = vs[0]
+    if kind == 'ss':
+        return ['m.first', 'list(m.samples())', 'list(m.data())', 'm.aggregate()', 'm.lowest()', 'm.to_serializable()', 'm.record.sample.tolist()',
+                f'm.samples()[:, {list(vs)[:2]!r}]', f'dimod.keep_variables(m, {list(vs)[:1]!r})', f'dimod.drop_variables(m, {list(vs)[:1]!r})',
+                'list(m.variables)', f'm.variables.index({v!r})', 'm.copy()', 'm.slice(0, 2)', 'm.truncate(1)', 'm.data_vectors', 'str(m)',
+                f"m.relabel_variables({{{v!r}: 'RD'}}, inplace=False)", 'm.change_vartype(m.vartype, inplace=False)', 'm.info', 'len(m)',
+                'm.to_pandas_dataframe()', 'list(m)', 'm.samples(sorted_by=None)[0] if len(m) else None', 'm == m.copy()']
+    common = ['m.num_variables', 'list(m.variables)', 'copy.deepcopy(m)', 'str(m)', 'repr(m)']
+    if kind == 'cqm':
+        sample = '{v: (m.lower_bound(v) if m.vartype(v) is not dimod.SPIN else -1) for v in m.variables}'
+        fixed = {k: r.choice(x) for k, x in list((dom or {}).items())[:2]}
+        fixed1 = {k: 1 for k in (dom or {}) if k in ('dA', 'eB')}
+        return common + [f'm.check_feasible({sample})', f'm.violations({sample})', f'list(m.iter_violations({sample}))', f'list(m.iter_constraint_data({sample}))',
+                         'm.num_biases()', 'm.num_quadratic_variables()', 'm.num_soft_constraints()', 'm.is_linear()', 'm.is_equal(copy.deepcopy(m))',
+                         'm.is_almost_equal(copy.deepcopy(m))', 'dimod.cqm_to_bqm(m)[0].num_interactions', 'dimod.lp.dumps(m)', 'm.discrete', 'dict(m.constraints)',
+                         '[c.lhs.is_discrete() for c in m.constraints.values()]', '[c.to_polystring() for c in m.constraints.values()]', 'm.objective.to_polystring()',
+                         f'm.fix_variables({fixed!r}, inplace=False)', f'm.fix_variables({fixed1!r}, inplace=False)', f"m.relabel_variables({{{v!r}: 'RD'}}, inplace=False)",
+                         'm.spin_to_binary(inplace=False)', '[m.vartype(v) for v in m.variables]', '[(m.lower_bound(v), m.upper_bound(v)) for v in m.variables]',
+                         "m.relabel_constraints({'c0': 'cX'}) if False else None", 'm.objective.energy(' + sample + ')', 'list(m.objective.iter_linear())',
+                         'dimod.ConstrainedQuadraticModel.from_file(m.to_file())', 'm.constraint_labels', "m.constraints['c0'].lhs.energy(" + sample + ')']
+    sample = '{v: 1 for v in m.variables}'
+    out = common + [f'm.energy({sample})', f'm.energies([{sample}])', 'list(m.iter_linear())', 'list(m.iter_quadratic())', 'dict(m.linear)', 'dict(m.quadratic)',
+                    '{u: dict(nb) for u, nb in m.adj.items()}', f'm.degree({v!r})', f'list(m.iter_neighborhood({v!r}))', 'm.num_interactions', 'm.is_linear()',
+                    'm.to_polystring()', 'm.copy()', f'm.get_linear({v!r})', f'm.linear[{v!r}]', 'm.offset', 'm.to_file().read()', 'm.is_equal(m.copy())',
+                    f"m.relabel_variables({{{v!r}: 'RD'}}, inplace=False)", 'm.relabel_variables_as_integers(inplace=False)', 'm + 1', 'm * 2', '-m', 'm - m', 'm.nbytes()']
+    if kind == 'bqm':
+        out += ['m.spin', 'm.binary', 'm.spin.binary.spin', 'm.binary.spin', 'm.to_numpy_vectors()', 'm.to_serializable()', 'm.to_qubo()', 'm.to_ising()',
+                'm.to_numpy_matrix() if False else None', "m.change_vartype('SPIN', inplace=False)", "m.change_vartype('BINARY', inplace=False)",
+                'dict(m.spin.linear)', 'dict(m.binary.quadratic)', 'm.spin.offset', 'm.binary.offset', f'm.binary.energy({sample})', 'm.spin.adj', 'dimod.as_bqm(m)',
+                'pickle.loads(pickle.dumps(m))', 'dimod.QuadraticModel.from_bqm(m)', 'm.binary.copy()', 'm.spin.to_polystring()', 'm.dtype', 'm.vartype', 'm.shape',
+                f'm.reduce_linear(max)', 'm.reduce_quadratic(max) if m.num_interactions else None', f'm.spin.get_linear({v!r})', 'm.spin.num_interactions']
+    else:
+        out += ['m.spin_to_binary(inplace=False)', '[m.vartype(v) for v in m.variables]', '[(m.lower_bound(v), m.upper_bound(v)) for v in m.variables]', 'pickle.loads(pickle.dumps(m))',
+                'm.to_file().read()', 'dimod.QuadraticModel.from_file(m.to_file())', 'm.dtype', 'm.is_almost_equal(m.copy())']
+    return out
+
+
+def check_reads(ctx, r, kind, src, vs, dom=None):
+    """Pattern: evaluate -> mutate -> evaluate again on ONE object (and on the objects reached from it).
+    (a) no read changes the receiver (full observable state); (b) the same in-place edits applied to an object that was read and to one that was
+    not leave the same state, and (c) every read then answers the same on both."""
+    site = {'bqm': 'BinaryQuadraticModel', 'qm': 'QuadraticModel', 'cqm': 'ConstrainedQuadraticModel', 'ss': 'SampleSet'}[kind]
+    calls = read_calls(kind, r, vs, dom)
+    picked = r.sample(calls, min(len(calls), r.randint(3, 9)))
+    if kind == 'ss':
+        edits_fn = lambda: ss_edits(r, 'm', vs, 3)
+    else:
+        edits_fn = lambda: model_edits(kind, r, vs, 'm', 3)
+    try:
+        A = fresh(src, ''); B = fresh(src, '')
+    except Exception:  # noqa
+        return
+    done_reads = []
+    for c in picked:
+        before = snap(A['m'])
+        try:
+            with warnings.catch_warnings():
+                warnings.simplefilter('ignore')
+                eval(c, A)
+        except Exception:  # noqa: not applicable to this object
+            ctx.tick(f'read {site}: not applicable')
+            continue
+        done_reads.append(c)
+        ctx.tick(f'read {site}')
+        if snap(A['m']) != before:
+            ctx.case((site, 'read', c, src), nontrivial=True)
+            ctx.fail('property', f'{site} non-mutating call', 'receiver changed by a non-mutating call', f'`{c}` changed the receiver: {before!r} -> {snap(A["m"])!r}',
+                     repro=PRE + src + f'\nbefore = snap(m)\n{c}\nassert snap(m) == before, (before, snap(m))', detail=dict(source=src, call=c))
+            return
+    edits = edits_fn()
+    dA = run_lines(A, edits); dB = run_lines(B, edits)
+    ctx.case((site, 'reads then edits', tuple(done_reads), tuple(dA), src), nontrivial=bool(done_reads) and bool(dA),
+             sample=dict(source=src.splitlines()[-1][:160], reads=done_reads, edits=dA) if r.random() < .01 else None)
+    rp_head = (PRE + f"SRC = {src!r}\nREADS = {done_reads!r}\nEDITS = {edits!r}\n"
+               "def build(reads):\n    env = dict(globals()); exec(SRC, env)\n    for c in reads:\n        try: eval(c, env)\n        except Exception: pass\n"
+               "    for ln in EDITS:\n        try: exec(ln, env)\n        except Exception: pass\n    return env\nA, B = build(READS), build([])\n")
+    if dA != dB or snap(A['m']) != snap(B['m']):
+        ctx.fail('property', f'{site} non-mutating call', 'earlier reads change what a later in-place edit does',
+                 f'after reads {done_reads!r} the edits {edits!r} give {snap(A["m"])!r}; without the reads {snap(B["m"])!r}',
+                 repro=rp_head + "assert snap(A['m']) == snap(B['m']), (snap(A['m']), snap(B['m']))", detail=dict(source=src, reads=done_reads, edits=edits))
+        return
+    for c in done_reads + r.sample(calls, min(len(calls), 4)):
+        res = []
+        for E in (A, B):
+            try:
+                with warnings.catch_warnings():
+                    warnings.simplefilter('ignore')
+                    res.append(('ok', obs(eval(c, E))))
+            except Exception as e:  # noqa
+                res.append(('raises', type(e).__name__))
+        if res[0] != res[1]:
+            ctx.fail('property', f'{site} non-mutating call', 'a read answers from a stale state after an in-place edit',
+                     f'after reads {done_reads!r} and edits {dA!r}: `{c}` gives {res[0]!r}; an object that was not read before the edits gives {res[1]!r}',
+                     repro=rp_head + f"C = {c!r}\ndef ev(E):\n    try: return obs(eval(C, E))\n    except Exception as e: return type(e).__name__\nassert ev(A) == ev(B), (ev(A), ev(B))",
+                     detail=dict(source=src, reads=done_reads, edits=dA, call=c))
+            return
 
 
 # ------------------------------------------------------------------ sample sets
@@ -580,7 +735,7 @@ def check_add_to_cqm(ctx, r, lines, expect, meta):
             b, b0 = env['b'], env['b0']
             held = eval(lhs, env)
             obs = (f"ok source_unchanged={int(snap(b) == snap(b0))} source_cleared={int(b.num_variables == 0 and b.offset == 0 and b0.num_variables > 0)} "
-                   f"constraint_holds_data={int(snap(held)[2:] == snap(b0)[2:])}")
+                   f"constraint_holds_data={int(snap(held)[2:5] == snap(b0)[2:5])}")
             if b0.num_variables == 0:
                 continue
             lines.append(line); expect.append(obs); meta.append(site); ctx.tick(site + ' source bits')
@@ -599,7 +754,7 @@ def check_add_to_cqm(ctx, r, lines, expect, meta):
                 continue
             held = eval(held_src, env)
             obs = (f"ok source_unchanged={int(snap(b) == snap(b0))} source_cleared={int(b.num_variables == 0 and b.offset == 0)} "
-                   f"constraint_holds_data={int(snap(held)[2:] == snap(b0)[2:])}")
+                   f"constraint_holds_data={int(snap(held)[2:5] == snap(b0)[2:5])}")
             lines.append(line); expect.append(obs); meta.append(site); ctx.tick(site + ' source bits')
             if 'copy=False' not in site and snap(b) != snap(b0):
                 ctx.fail('property', site, 'source model changed by the call', f'{snap(b0)!r} -> {snap(b)!r}',
@@ -611,7 +766,7 @@ def check_add_to_cqm(ctx, r, lines, expect, meta):
         if b0.num_variables:
             site = 'ConstrainedQuadraticModel.set_objective(object dtype)'
             lines.append('hadd objective - 1'); meta.append(site); ctx.tick(site + ' source bits')
-            expect.append(f"ok source_unchanged={int(snap(b) == snap(b0))} source_cleared=0 constraint_holds_data={int(snap(env['m'].objective)[2:] == snap(b0)[2:])}")
+            expect.append(f"ok source_unchanged={int(snap(b) == snap(b0))} source_cleared=0 constraint_holds_data={int(snap(env['m'].objective)[2:5] == snap(b0)[2:5])}")
     # add_discrete(comparison, copy, check_overlaps): the two options must reach the callee as given
     dsrc = "q = dimod.Binary('dA') + dimod.Binary('dB') + dimod.Binary('dC')"
     for cp in (True,):
@@ -634,9 +789,9 @@ def check_add_to_cqm(ctx, r, lines, expect, meta):
                     continue
                 held = m.constraints['d0'].lhs
                 lines.append(f'addcqm discrete {int(cp)} {int(co)}')
-                expect.append(f"ok source_unchanged=1 source_cleared=0 constraint_holds_data={int(snap(held)[2:] == snap(q0)[2:])}"); meta.append(site)
+                expect.append(f"ok source_unchanged=1 source_cleared=0 constraint_holds_data={int(snap(held)[2:5] == snap(q0)[2:5])}"); meta.append(site)
                 lines.append(f'hadd discrete {int(cp)} {int(co)}')
-                expect.append(f"ok source_unchanged=1 source_cleared=0 constraint_holds_data={int(snap(held)[2:] == snap(q0)[2:])}"); meta.append(site)
+                expect.append(f"ok source_unchanged=1 source_cleared=0 constraint_holds_data={int(snap(held)[2:5] == snap(q0)[2:5])}"); meta.append(site)
 
 
 def check_discrete_overlap(ctx):
@@ -785,7 +940,7 @@ def run(ctx):
                 'vartype, bounds, constraints, record fields, info at every level).  A case = one script on one side of one call; '
                 'non-trivial = at least one edit applied')
     lines, expect, meta = [], [], []
-    nrounds = ctx.scale(60, 500)
+    nrounds = ctx.scale(30, 220)       # r8f: quick tier trimmed (was 60): every round runs every call of every class; volume lives in the thorough tier (500 rounds took 27.5 min with the r8f generators: 220)
     nscripts = ctx.scale(2, 4)
     for _ in range(nrounds):
         for kind, gen in (('bqm', gen_bqm), ('qm', gen_qm), ('cqm', gen_cqm)):
@@ -820,8 +975,14 @@ def run(ctx):
                     m, res = env['m'], env['res']
                     hop = ('deepcopy' if name in ('copy()', 'copy.deepcopy') else 'fixvariablescopy' if name.startswith('fix_variables(') else 'inplacefalse')
                     lines.append('hcqm ' + hop); ctx.tick('heap model: cqm ' + hop)
-                    expect.append(f'ok variables={int(res.variables is m.variables)} clabels={int(res.constraint_labels is m.constraint_labels)} shared=0 receiver_unchanged=1')
+                    expect.append(f'ok variables={int(res.variables is m.variables)} clabels={int(res.constraint_labels is m.constraint_labels)} shared=0 receiver_unchanged={int(env["after"] == env["before"])}')
                     meta.append(site)
+        for kind, gen in (('bqm', gen_bqm), ('qm', gen_qm), ('cqm', gen_cqm), ('cqm', gen_cqm)):
+            rsrc, rvs, rvt = gen(r)
+            for _ in range(2):
+                check_reads(ctx, r, kind, rsrc, rvs, rvt if kind == 'cqm' else None)
+        rsrc, rlabels, _ = gen_ss(r, 'm')
+        check_reads(ctx, r, 'ss', rsrc, rlabels)
         check_views(ctx, r, lines, expect, meta)
         check_add_to_cqm(ctx, r, lines, expect, meta)
         check_variables(ctx, r)
@@ -856,7 +1017,7 @@ def run(ctx):
     missing = [n for n in FWD_USED if n not in forwarding_names()]
     if missing:
         ctx.fail('correspondence', 'forwarding_method list', 'BinaryQuadraticModel', f'{missing} are no longer @forwarding_method: the cache model routes `fwd` do not describe them')
-    for _ in range(ctx.scale(300, 4000)):
+    for _ in range(ctx.scale(200, 3000)):
         check_pycache(ctx, r, lines, expect, meta)
     got = run_driver('storedriver', lines)
     ctx.corr_lines += len(lines)
